@@ -78,6 +78,7 @@ class Check:
         self.model_runs = []
         self.known = [k for k in load_known() if k.get("property") == pid]
         self.quick = self.tier == "quick"
+        self._sigs = set()       # content signatures of the distinct non-trivial cases seen
         if not self.args.replay:
             # replay files of an earlier run must not be mistaken for this run's
             import shutil
@@ -114,6 +115,8 @@ class Check:
         """Book-keeping for one behaviour replayed into the implementation."""
         self.traces += 1
         self.evaluations += 1
+        body = {k: v for k, v in record.items() if k != "id"}
+        self._sigs.add(hash(json.dumps(body, sort_keys=True, default=str)))
         if not ok:
             self.report(record, why)
 
@@ -135,6 +138,12 @@ class Check:
                                 "distinct": st["distinct"], "generated": st["generated"],
                                 "wall_s": round(st["wall"], 1)})
         byid = {r["id"]: r for r in records}
+        for r in records:
+            # distinct = different content (the id and free-text fields do not count);
+            # non-trivial = the implementation produced something to judge (not a refusal / crash)
+            if r.get("outcome", "ok") in ("ok", "accept") and r.get("wrote", "ok") == "ok":
+                body = {k: v for k, v in r.items() if k not in ("id", "argv", "msg", "kf", "stderr_head")}
+                self._sigs.add(hash(json.dumps(body, sort_keys=True, default=str)))
         for i, why in verdicts.items():
             if why != "ok":
                 self.report(byid[i], why, keyf)
@@ -225,7 +234,7 @@ class Check:
             "traces_validated_against_impl": self.traces,
             "samples": self.samples or ["(none)"],
             "evaluations": max(self.evaluations, 1),
-            "distinct_nontrivial": distinct_nontrivial if distinct_nontrivial is not None else self.traces,
+            "distinct_nontrivial": distinct_nontrivial if distinct_nontrivial is not None else len(self._sigs),
             "rule": rule,
             "exhaustive": False,
             "tlc_runs": self.model_runs,
